@@ -19,23 +19,24 @@ import (
 const modulePath = "github.com/reeflective/readline"
 
 type Engine struct {
-	repo      string
-	verif     string
-	prog      *ssa.Program
-	fset      *token.FileSet
-	spkgs     map[string]*ssa.Package
-	tpkgs     map[string]*types.Package
-	byName    map[string]*types.Package // short package name -> package (module first)
-	pkgDirs   map[string]string
-	funcs     map[string]*ssa.Function
-	cs        *Contracts
-	src       map[string][]string
-	wsMemo    map[*ssa.Function]*WriteSet
-	inlMemo   map[*ssa.Function]bool
-	overlay   string
-	known     *KnownFindings
-	curProp   string
-	reachMemo map[[2]*ssa.Function]bool
+	repo         string
+	verif        string
+	prog         *ssa.Program
+	fset         *token.FileSet
+	spkgs        map[string]*ssa.Package
+	tpkgs        map[string]*types.Package
+	byName       map[string]*types.Package // short package name -> package (module first)
+	pkgDirs      map[string]string
+	funcs        map[string]*ssa.Function
+	cs           *Contracts
+	src          map[string][]string
+	wsMemo       map[*ssa.Function]*WriteSet
+	inlMemo      map[*ssa.Function]bool
+	overlay      string
+	known        *KnownFindings
+	curProp      string
+	reachMemo    map[[2]*ssa.Function]bool
+	constGlobals map[*ssa.Global]*ssa.Const
 }
 
 func LoadEngine(repo, verif string) (*Engine, error) {
@@ -747,4 +748,50 @@ func (e *Engine) reaches(from, to *ssa.Function) bool {
 	r := dfs(from)
 	e.reachMemo[k] = r
 	return r
+}
+
+// constGlobal: a package-level variable of the module that is only ever assigned once, in the package
+// initialiser, with a constant, and never has its address taken otherwise, is read as that constant.
+func (e *Engine) constGlobal(g *ssa.Global) *ssa.Const {
+	if e.constGlobals == nil {
+		e.constGlobals = map[*ssa.Global]*ssa.Const{}
+		stores := map[*ssa.Global][]*ssa.Store{}
+		bad := map[*ssa.Global]bool{}
+		for _, f := range e.funcs {
+			if f.Blocks == nil || !e.inModule(f) {
+				continue
+			}
+			for _, b := range f.Blocks {
+				for _, ins := range b.Instrs {
+					switch x := ins.(type) {
+					case *ssa.Store:
+						if gl, ok := x.Addr.(*ssa.Global); ok {
+							stores[gl] = append(stores[gl], x)
+						}
+						if gl, ok := x.Val.(*ssa.Global); ok {
+							bad[gl] = true
+						}
+					case *ssa.UnOp:
+					default:
+						for _, op := range ins.Operands(nil) {
+							if gl, ok := (*op).(*ssa.Global); ok {
+								if _, isDbg := ins.(*ssa.DebugRef); !isDbg {
+									bad[gl] = true
+								}
+							}
+						}
+					}
+				}
+			}
+		}
+		for gl, ss := range stores {
+			if bad[gl] || len(ss) != 1 {
+				continue
+			}
+			if k, ok := ss[0].Val.(*ssa.Const); ok && ss[0].Parent().Name() == "init" {
+				e.constGlobals[gl] = k
+			}
+		}
+	}
+	return e.constGlobals[g]
 }
